@@ -304,6 +304,27 @@ func (p *Program) allocBound(id string) int64 {
 
 func (p *Program) SpecPrelude() string { return p.specPrelude }
 
+// globalVarWriters: functions other than init that assign the variable itself.
+func (p *Program) globalVarWriters(pkg, name string) []string {
+	var out []string
+	for id, fn := range p.Funcs {
+		if fn.Name() == "init" && fn.Synthetic != "" {
+			continue
+		}
+		for _, b := range fn.Blocks {
+			for _, in := range b.Instrs {
+				if st, ok := in.(*ssa.Store); ok {
+					if g, ok := st.Addr.(*ssa.Global); ok && g.Name() == name && g.Pkg.Pkg.Name() == pkg {
+						out = append(out, id)
+					}
+				}
+			}
+		}
+	}
+	sort.Strings(out)
+	return out
+}
+
 // implementers: dynamic types (T or *T) of repository packages whose method set implements interface it.
 // Used for the closed-world assumption on values of interfaces declared in the repository.
 func (p *Program) implementers(it types.Type) []types.Type {
@@ -356,6 +377,15 @@ func (p *Program) isRepoInterface(t types.Type) bool {
 		return false
 	}
 	return strings.HasPrefix(n.Obj().Pkg().Path(), modulePath)
+}
+
+func (p *Program) rwMutexType() types.Type {
+	for _, tp := range p.pkgsByName["sync"] {
+		if tn, ok := tp.Scope().Lookup("RWMutex").(*types.TypeName); ok {
+			return tn.Type()
+		}
+	}
+	return types.Typ[types.Int]
 }
 
 // goTargetFuncs: functions started with a go statement anywhere in the repository.
